@@ -98,6 +98,9 @@ def gen_recipe(rng, fmt, tier="quick"):
         r["nd"] = rng.choice([4, 6, 8, 9, 12, 24, 36])
         r["dir"]["order"] = rng.choice(["asc", "asc", "rot", "shuf"])
         r["dtype"] = "float64"
+        # keep amplitudes sqrt(8 E df dd)/2 below 100 m, the widest value the format's fixed %12.8f columns can hold
+        r["nf"] = min(r["nf"], 9)
+        r["freq"]["r"] = min(r["freq"].get("r", 1.1), 1.2)
         if r["data"]["kind"] in ("huge", "single_bin"):
             # amplitudes >= 100 m do not fit the format's fixed %12.8f columns (no separator is written):
             # outside what the format can express, and far outside physical wave spectra
